@@ -249,7 +249,8 @@ Proof.
     + intros f. unfold pend_cnt in *. cbn [cnt snd]. rewrite H3. lia.
 Qed.
 
-Record inv (ee : bool) (ps : list path) (s : st) : Prop := mkinv {
+(* rz: whether EvMainRaise events may occur in the schedule *)
+Record inv (ee rz : bool) (ps : list path) (s : st) : Prop := mkinv {
   inv_sub : forall p, In p (todo s) -> In p ps;
   inv_pend : forall j a, In (j, a) (pending s) -> exists p, In p ps /\ potential p = true /\ ans p = a;
   inv_outs_sat : forall v, In (Sat v) (outs s) -> exists p, In p ps /\ potential p = true /\ ans p = Sat v;
@@ -259,24 +260,27 @@ Record inv (ee : bool) (ps : list path) (s : st) : Prop := mkinv {
       /\ nstuck s + cnt confirmed_stuck (todo s) = cnt confirmed_stuck ps
       /\ normal s + cnt succeeded (todo s) = cnt succeeded ps;
   inv_done : mst s = MDone -> flag s = false -> todo s = [];
-  inv_crash : mst s = MCrashed -> flag s = true /\ exists p, In p ps /\ kind p = Stuck
+  inv_crash : mst s = MCrashed ->
+      (flag s = true /\ exists p, In p ps /\ kind p = Stuck) \/
+      (rz = true /\ exists p, In p ps /\ kind p = Stuck /\ ans p = Err)
 }.
 
-Lemma inv_init : forall ee ps, inv ee ps (init ps).
+Lemma inv_init : forall ee rz ps, inv ee rz ps (init ps).
 Proof.
   intros. constructor; cbn; try discriminate; try tauto; try (intros; contradiction).
   all: try (intros _; repeat split; try lia; intros f; unfold pend_cnt; cbn; lia).
 Qed.
 
-Lemma inv_set_mst : forall ee ps s m, inv ee ps s ->
+Lemma inv_set_mst : forall ee rz ps s m, inv ee rz ps s ->
   (m = MDone -> flag s = false -> todo s = []) ->
-  (m = MCrashed -> flag s = true /\ exists p, In p ps /\ kind p = Stuck) ->
-  inv ee ps (set_mst s m).
-Proof. intros ee ps s m [] Hd Hc. constructor; cbn; assumption. Qed.
+  (m = MCrashed -> (flag s = true /\ exists p, In p ps /\ kind p = Stuck) \/
+                   (rz = true /\ exists p, In p ps /\ kind p = Stuck /\ ans p = Err)) ->
+  inv ee rz ps (set_mst s m).
+Proof. intros ee rz ps s m [] Hd Hc. constructor; cbn; assumption. Qed.
 
-Lemma inv_step_main : forall ee ps s, inv ee ps s -> inv ee ps (step_main s).
+Lemma inv_step_main : forall ee rz ps s, inv ee rz ps s -> inv ee rz ps (step_main s).
 Proof.
-  intros ee ps s I. unfold step_main.
+  intros ee rz ps s I. unfold step_main.
   destruct (mst s) eqn:M; [| | assumption | assumption].
   - (* MCheck *)
     destruct (todo s) eqn:T.
@@ -316,7 +320,7 @@ Proof.
       * (* Stuck *)
         case_eq (flag s); intros F.
         -- apply inv_set_mst; [constructor; assumption | discriminate |].
-           intros _. split; [assumption |]. exists (mkpath Stuck a). auto.
+           intros _. left. split; [assumption |]. exists (mkpath Stuck a). auto.
         -- constructor; cbn; try assumption; try discriminate.
            intros _. destruct (Icount F) as (C1 & C2 & C3). rewrite T in *. unfold pot_cnt, pend_cnt, stuck_counted in *.
            cbn [cnt potential succeeded confirmed_stuck kind ans andb] in *.
@@ -329,9 +333,9 @@ Proof. reflexivity. Qed.
 Lemma get_output_shutdown : forall r, get_solver_output true r = Err.
 Proof. reflexivity. Qed.
 
-Lemma inv_step_cb : forall ee ps j s, inv ee ps s -> inv ee ps (step_cb ee j s).
+Lemma inv_step_cb : forall ee rz ps j s, inv ee rz ps s -> inv ee rz ps (step_cb ee j s).
 Proof.
-  intros ee ps j s I. unfold step_cb.
+  intros ee rz ps j s I. unfold step_cb.
   destruct (take j (pending s)) as [[a rest] |] eqn:T; [| assumption].
   destruct (take_spec _ _ _ _ T) as (Hin & Hsub & Hcnt).
   destruct I as [Isub Ipend Iouts Iflag Icount Idone Icrash].
@@ -352,16 +356,35 @@ Proof.
       intros f. specialize (C1 f). rewrite cnt_app. cbn [cnt]. rewrite Hcnt in C1.
       unfold pend_cnt, pot_cnt in *. destruct (f a); lia.
     + intros M H. apply Idone; [assumption | reflexivity].
-    + intros M. destruct (Icrash M) as [X _]. discriminate.
+    + intros M. destruct (Icrash M) as [[X _] | X]; [discriminate | right; assumption].
 Qed.
 
-Lemma inv_run : forall ee ps sched, inv ee ps (run ee ps sched).
+Lemma inv_step_main_raise : forall ee ps s, inv ee true ps s -> inv ee true ps (step_main_raise s).
 Proof.
-  intros ee ps sched. unfold run.
-  assert (G : forall s, inv ee ps s -> inv ee ps (fold_left (step ee) sched s)).
-  { induction sched as [| e sched IH]; intros s I; cbn [fold_left]; [assumption |].
-    apply IH. destruct e; cbn [step]; [apply inv_step_main | apply inv_step_cb]; assumption. }
-  apply G, inv_init.
+  intros ee ps s I. unfold step_main_raise.
+  destruct (mst s) eqn:M; try (apply inv_step_main; assumption).
+  destruct (todo s) as [| p rest] eqn:T; [apply inv_step_main; assumption |].
+  destruct (kind_action (kind p)) eqn:A; try (apply inv_step_main; assumption).
+  destruct (is_err (ans p)) eqn:E; [| apply inv_step_main; assumption].
+  apply inv_set_mst; [assumption | discriminate |].
+  intros _. right. split; [reflexivity |]. exists p.
+  split; [apply (inv_sub _ _ _ _ I); rewrite T; left; reflexivity |].
+  destruct p as [k a]. cbn [kind ans] in *. split.
+  - destruct k; cbn in A; try discriminate A; reflexivity.
+  - destruct a; try discriminate E; reflexivity.
+Qed.
+
+Lemma inv_run : forall ee rz ps sched,
+  (rz = false -> ~ In EvMainRaise sched) -> inv ee rz ps (run ee ps sched).
+Proof.
+  intros ee rz ps sched. unfold run.
+  assert (G : forall s, (rz = false -> ~ In EvMainRaise sched) -> inv ee rz ps s -> inv ee rz ps (fold_left (step ee) sched s)).
+  { induction sched as [| e sched IH]; intros s N I; cbn [fold_left]; [assumption |].
+    apply IH; [intros Z X; apply (N Z); right; assumption |].
+    destruct e; cbn [step]; [apply inv_step_main | | apply inv_step_cb]; try assumption.
+    destruct rz; [apply inv_step_main_raise; assumption |].
+    exfalso. apply (N eq_refl). left. reflexivity. }
+  intros N. apply G; [assumption | apply inv_init].
 Qed.
 
 Lemma sat_out_fail : forall outs ns nn v, In (Sat v) outs -> verdict_of outs ns nn = (LFail, EX_COUNTEREXAMPLE).
@@ -381,12 +404,14 @@ Proof.
 Qed.
 
 (* main result about schedules *)
-Lemma schedule_sound : forall ee ps sched r,
+Lemma schedule_sound_gen : forall ee rz ps sched r,
+  (rz = false -> ~ In EvMainRaise sched) ->
   result (run ee ps sched) = Some r ->
   r = model_verdict ps \/
-  (ee = true /\ spec_verdict ps = LFail /\ r = (raised_label, raised_exitcode) /\ exists p, In p ps /\ kind p = Stuck).
+  (ee = true /\ spec_verdict ps = LFail /\ r = (raised_label, raised_exitcode) /\ exists p, In p ps /\ kind p = Stuck) \/
+  (rz = true /\ r = (raised_label, raised_exitcode) /\ exists p, In p ps /\ kind p = Stuck /\ ans p = Err).
 Proof.
-  intros ee ps sched r H. pose proof (inv_run ee ps sched) as I. set (s := run ee ps sched) in *.
+  intros ee rz ps sched r N H. pose proof (inv_run ee rz ps sched N) as I. set (s := run ee ps sched) in *.
   destruct I as [Isub Ipend Iouts Iflag Icount Idone Icrash]. unfold result in H.
   destruct (mst s) eqn:M; try discriminate.
   - (* MDone *)
@@ -406,9 +431,31 @@ Proof.
       apply verdict_of_counts. intros f. rewrite submitted_cnt. specialize (C1 f).
       unfold pend_cnt in C1. unfold pot_cnt in C1 at 1. cbn [cnt] in C1. lia.
   - (* MCrashed *)
-    inversion H; subst r. right. destruct (Icrash eq_refl) as (F & Hst).
-    destruct (Iflag F) as [He Hs]. destruct (Iouts _ Hs) as (p & Hin & Hp & Ha).
-    repeat split; try assumption. eapply spec_fail_of_sat; eassumption.
+    inversion H; subst r. right. destruct (Icrash eq_refl) as [(F & Hst) | (Z & Hst)].
+    + left. destruct (Iflag F) as [He Hs]. destruct (Iouts _ Hs) as (p & Hin & Hp & Ha).
+      repeat split; try assumption. eapply spec_fail_of_sat; eassumption.
+    + right. repeat split; assumption.
+Qed.
+
+(* schedules in which no synchronous solve raises on its own *)
+Lemma schedule_sound : forall ee ps sched r,
+  ~ In EvMainRaise sched ->
+  result (run ee ps sched) = Some r ->
+  r = model_verdict ps \/
+  (ee = true /\ spec_verdict ps = LFail /\ r = (raised_label, raised_exitcode) /\ exists p, In p ps /\ kind p = Stuck).
+Proof.
+  intros ee ps sched r N H.
+  destruct (schedule_sound_gen ee false ps sched r (fun _ => N) H) as [X | [X | (X & _)]]; [left | right | discriminate X]; assumption.
+Qed.
+
+Lemma schedule_sound_any : forall ee ps sched r,
+  result (run ee ps sched) = Some r ->
+  r = model_verdict ps \/
+  (ee = true /\ spec_verdict ps = LFail /\ r = (raised_label, raised_exitcode) /\ exists p, In p ps /\ kind p = Stuck) \/
+  (r = (raised_label, raised_exitcode) /\ exists p, In p ps /\ kind p = Stuck /\ ans p = Err).
+Proof.
+  intros ee ps sched r H.
+  destruct (schedule_sound_gen ee true ps sched r (fun X => False_ind _ (Bool.diff_true_false X)) H) as [X | [X | (_ & X)]]; auto.
 Qed.
 
 (* ------------------------------------------------------------------ first line dispatch *)
@@ -736,23 +783,28 @@ Lemma schedule_failsafe : forall ee ps sched r,
   result (run ee ps sched) = Some r ->
   (fst r = LPass <-> spec_verdict ps = LPass) /\ (snd r = EX_PASS <-> spec_verdict ps = LPass).
 Proof.
-  intros ee ps sched r H. destruct (schedule_sound _ _ _ _ H) as [-> | (_ & SF & -> & _)].
+  intros ee ps sched r H. destruct (schedule_sound_any _ _ _ _ H) as [-> | [(_ & SF & -> & _) | (-> & p & Hin & K & A)]].
   - split; [rewrite model_verdict_label; reflexivity | apply model_verdict_code].
   - rewrite SF. split; split; intros X; discriminate X.
+  - assert (NP : spec_verdict ps <> LPass).
+    { intros P. apply spec_pass_iff in P. destruct P as (_ & P & _). rewrite (P p Hin K) in A. discriminate A. }
+    split; split; intros X; try discriminate X; contradiction.
 Qed.
 
 Lemma schedule_no_stuck : forall ee ps sched r,
   (forall p, In p ps -> kind p <> Stuck) ->
   result (run ee ps sched) = Some r -> r = model_verdict ps.
 Proof.
-  intros ee ps sched r NS H. destruct (schedule_sound _ _ _ _ H) as [-> | (_ & _ & _ & (p & Hin & K))].
+  intros ee ps sched r NS H. destruct (schedule_sound_any _ _ _ _ H) as [-> | [(_ & _ & _ & (p & Hin & K)) | (_ & p & Hin & K & _)]].
   - reflexivity.
+  - exfalso. apply (NS p Hin K).
   - exfalso. apply (NS p Hin K).
 Qed.
 
 Lemma schedule_no_early_exit : forall ps sched r,
+  ~ In EvMainRaise sched ->
   result (run false ps sched) = Some r -> r = model_verdict ps /\ fst r = spec_verdict ps.
 Proof.
-  intros ps sched r H. destruct (schedule_sound _ _ _ _ H) as [-> | (X & _)]; [| discriminate X].
+  intros ps sched r N H. destruct (schedule_sound _ _ _ _ N H) as [-> | (X & _)]; [| discriminate X].
   split; [reflexivity | apply model_verdict_label].
 Qed.
